@@ -101,6 +101,30 @@ void h_fileMustOpen(void)
 	VREACH();
 }
 
+/* the real file.c:fileClose: a stream on which earlier writes may have failed (sticky error indicator, as after
+ * any of the model's may-fail writes), closed through the handler under test */
+void h_fileClose(void)
+{
+	FileName fn = nondet_fname();
+	FILE	*f;
+	stderr = &h_stderr;
+#if defined(H_WITH_AXLCOMP)
+	fileSetHandler(compFileError);
+#else
+	fileSetHandler((FileErrorFun) 0);
+#endif
+	g_nopen = 1; g_open[0] = 1; g_reported = 0; g_open_failed = 0; g_io_failed = 0;
+	f = &v_stream[0];
+	if (nondet_v_bool()) { g_err[0] = 1; g_io_failed = 1; } else g_err[0] = 0;	/* an earlier write failed, or not */
+	fileClose(f, fn);
+#ifdef CANARY_fileClose
+	CHECK("canary: fileClose leaves the stream open", g_open[0]);
+#endif
+	CHECK("fileClose returned: the stream is closed", !g_open[0]);
+	CHECK("fileClose returned: no write, flush or close of the stream had failed", !g_io_failed);
+	VREACH();
+}
+
 #ifdef NATIVE_REPLAY
 V_NATIVE_MAIN(ENTRY)
 #endif
